@@ -224,6 +224,13 @@ def make_root(name):
     return fixtures.SealedByDefault(x=pg.Dict(q=0), items=[1]).seal(False)
   if name == 'sealed_by_default':
     return fixtures.SealedByDefault(x=pg.Dict(q=pg.List([0])), items=[pg.Dict(r=1), 2])
+  if name == 'instance_acc':
+    # the accessor-writable flag changed per instance, in both directions, at the root and below it
+    on = fixtures.NoAssign(x=pg.Dict(q=0), items=[fixtures.NoAssign(x=1).set_accessor_writable(True)]).set_accessor_writable(True)
+    off = N(x=N(x=1).set_accessor_writable(False), items=[{'k': 0}]).set_accessor_writable(False)
+    return pg.Dict(on=on, off=off)
+  if name == 'instance_acc_root':
+    return fixtures.NoAssign(x=pg.Dict(q=0), items=[1]).set_accessor_writable(True)
   if name == 'clone_of_sealed':
     return N(x=N(x=pg.Dict(a=1)), items=[{'k': 0}], sealed=True).clone(deep=True)
   if name == 'none':
